@@ -5,9 +5,13 @@ matrices Q and transition matrices P that a likelihood function reports, with
 the motif probabilities pi taken from the *generated input* (for the
 monomer / position-specific monomer models the harness derives the word
 distribution from the monomer probabilities by the published product rule),
-plus a differential against ``scipy.linalg.expm`` and between all
-exponentiation back-ends.  The exponentiator classes are also called directly
-on rate matrices built by the harness (reversible, general, near-defective).
+plus a differential against a harness-written matrix exponential
+(uniformisation: Poisson mixture of powers of the non-negative matrix I + Q/mu,
+then repeated squaring) and between all exponentiation back-ends.  The
+exponentiator classes are also called directly on rate matrices built by the
+harness (reversible, general, near-defective).  scipy.linalg.expm is only
+consulted to record where it disagrees with the reference (it is wrong by up to
+2e-3 on triangular rate matrices with equal diagonal entries).
 """
 
 from __future__ import annotations
@@ -26,28 +30,29 @@ RULE = (
     "A case of the likelihood-function sub-checks is a substitution model (every registered continuous-time model, or a model "
     "built from generated predicates on the nucleotide, dinucleotide or codon alphabet with motif-probability model tuple / "
     "conditional / monomer / monomers, or General / GeneralStationary), optionally rate classes (2-4 bins; gamma or free "
-    "distribution on 'rate' or on a model parameter; generated bin probabilities and shape), and 1-3 points, each = motif "
+    "distribution on 'rate' or on a model parameter; generated bin probabilities and shape), and 1-4 points, each = motif "
     "probabilities (normalised positive weights; plain, one component near 2e-4, or one component near 0.97), all rate "
     "parameters log-uniform in [1e-2, 1e2] (a third of the points: [1e-4, 1e4]), an optional second parameter vector for one edge, and branch lengths s, t "
     "in [0, 5] (0 and tiny values included). For every point Q (calibrated and not) and P for lengths 0, s, t, s+t are read "
     "for every bin under each of the expm settings either, pade, checked, eigen and checked against the identities of the "
-    "property and scipy.linalg.expm. A case of the expm sub-check is a harness-built rate matrix (2-8 or 20 states; reversible, "
+    "property and against the harness's uniformisation exp(Qt). A case of the expm sub-check is a harness-built rate matrix (2-8 or 20 states; reversible, "
     "general, or near-defective chain/triangular structure) and a time; all exponentiator classes and the back-ends selected "
-    "by ExpDefn are compared with scipy. The discrete sub-check optimises BH/DT on a generated gap-free alignment for a few "
+    "by ExpDefn are compared with the uniformisation reference. The discrete sub-check optimises BH/DT on a generated gap-free alignment for a few "
     "steps and checks stochasticity of every psub. Non-trivial = unequal motif probabilities, at least one non-default "
     "parameter (or bin structure) and s, t > 0 (expm: n >= 3 and t > 0); distinct = distinct case encodings."
 )
 ASSUMPTIONS = [
-    "motif probabilities have every component >= 1e-4 before normalisation effects (set_motif_probs clamps at 1e-6)",
-    "rate parameters are drawn from [1e-2, 1e2] (moderate) or [1e-4, 1e4] (wide), inside the declared bounds [1e-6, 1e6]; with the wide range the comparisons with scipy use tolerances scaled by max(1, ||Q t||_inf)",
+    "motif probabilities have every component >= 2e-5 (set_motif_probs adjusts components below 1e-6); the near-degenerate modes put one component near 2e-4 or near 0.97",
+    "rate parameters are drawn from [1e-2, 1e2] (moderate) or [1e-4, 1e4] (wide), or a third of them exactly at the declared lower bound 1e-6 and the rest in [1e-2, 1e2] (lower-bound); all inside the declared bounds [1e-6, 1e6]; comparisons of P use tolerances scaled by k = max(1, ||Q t||_inf)",
     "gamma shape in [0.05, 50] (declared lower bound 0.01); bin probabilities >= 0.05 before normalisation",
     "branch lengths in [0, 5] so that s+t stays within the declared upper bound 10",
-    "tolerances: Q row sums 1e-10*||Q||, calibration 1e-10, rate mean 1e-10, P row sums 1e-10*k, P entries in [-1e-12, 1+1e-10], P(0)=I 1e-12, semigroup 1e-9*k, P vs scipy 1e-9*k, back-ends pairwise 1e-8*k, piQ 1e-10*||Q||, piP 1e-9*k, detailed balance 1e-10*||Q|| with k = max(1, ||Q t||_inf)",
-    "the eigen back-ends (eigen, checked, and either when it does not fall back) are compared with scipy only for time-reversible models (Q similar to a symmetric matrix, diagonalisation well conditioned); for other models they only have to produce row-stochastic matrices, and 'checked' may raise ArithmeticError/LinAlgError, in which case 'either' must equal 'pade'",
+    "tolerances: Q row sums 1e-10*||Q||, calibration 1e-10, rate mean 1e-10, P row sums 1e-10*k, P entries in [-1e-12, 1+1e-10*k], P(0)=I 1e-12, semigroup 1e-9*k, P vs exp(Qt) 1e-9*k, back-ends pairwise 1e-8*k, piQ 1e-10*||Q||, piP 1e-9*k, detailed balance 1e-10*||Q|| with k = max(1, ||Q t||_inf); for the precision-tested eigen route (checked, either) on non-reversible models the P tolerances are ten times wider (1e-8*k, rows 1e-9*k, P(0)=I 1e-9)",
+    "the reference exp(Qt) is the harness's uniformisation + squaring (needs a valid rate matrix, which is checked first); scipy.linalg.expm is not trusted as the oracle because it errs by up to 2e-3 on triangular Q with equal diagonal entries",
+    "the unchecked eigen back-end ('eigen', FastExponentiator) is compared with the reference only for time-reversible models (Q similar to a symmetric matrix, diagonalisation well conditioned); on other models nothing is claimed for it (the module documents it as limited to 'not too asymmetric' matrices). 'checked' may raise ArithmeticError/LinAlgError on any model, in which case 'either' must equal 'pade'",
     "stationarity is claimed for TimeReversible*, Empirical protein and GeneralStationary models; detailed balance for TimeReversible* and the empirical protein models (symmetric exchangeabilities)",
-    "GeneralStationary may reject a parameter vector with ParameterOutOfBoundsError (documented); such points are skipped",
+    "GeneralStationary may reject a parameter vector with ParameterOutOfBoundsError (documented); such points are skipped, and its parameters are drawn from 10^(+-0.3) to keep most points feasible",
     "rate classes only through ordered_param + distribution (the unordered with_rate/partitioned_params configuration has free, un-normalised rates and is not claimed)",
-    "TaylorExponentiator is compared only when ||Q t||_inf <= 8 (plain series; cancellation beyond that is inherent)",
+    "TaylorExponentiator is compared only when ||Q t||_inf <= 8 (plain series; cancellation beyond that is inherent), at 1e-9 up to ||Q t|| = 2 where its fixed 21 terms have converged and at 1e-4 beyond (its stopping rule is numpy.allclose)",
     "discrete-time models: alignments without gaps or ambiguity codes; only stochasticity of psubs and of the motif probabilities is claimed",
     "model objects are cached per worker process (construction of codon models takes seconds); a fresh likelihood function is built for every point and expm setting",
 ]
@@ -114,9 +119,9 @@ def pi_st(draw, n):
     """positive weights; normalised when executed"""
     if n == 0:
         return None
-    w = draw(st.lists(_fl(0.05, 1.0), min_size=n, max_size=n))
     mode = draw(st.sampled_from(["plain", "plain", "plain", "small", "dominant", "equal"]))
     idx = draw(st.integers(0, n - 1))
+    w = draw(st.lists(_fl(0.05, 1.0), min_size=n, max_size=n))
     return {"mode": mode, "w": w, "idx": idx}
 
 
@@ -138,35 +143,44 @@ def pi_vector(spec, n=None):
 
 @st.composite
 def length_st(draw):
-    k = draw(st.integers(0, 9))
-    if k == 0:
+    k = draw(st.sampled_from(["zero", "tiny", "long", "mid", "mid", "mid", "mid", "mid", "mid", "mid"]))
+    if k == "zero":
         return 0.0
-    if k == 1:
+    if k == "tiny":
         return draw(st.sampled_from([1e-9, 1e-6, 1e-3]))
-    if k == 2:
+    if k == "long":
         return draw(_fl(2.0, 5.0))
     return draw(_fl(0.01, 2.0))
 
 
 @st.composite
 def point_st(draw, npi, nmono_positions=0):
-    wide = draw(st.integers(0, 2)) == 0
+    # scalars first (see expm_cases)
+    prange = draw(st.sampled_from(["moderate", "moderate", "moderate", "wide", "wide", "lower-bound"]))
+    wide = prange != "moderate"
     lim = 4.0 if wide else 2.0
-    logp = draw(st.lists(_fl(-lim, lim), min_size=14, max_size=14))
+    s_, t_, u_ = draw(length_st()), draw(length_st()), draw(length_st())
+    het = draw(st.sampled_from([True, False, False, False]))
     ndefault = draw(st.sampled_from([0, 0, 0, 1, 3]))
-    for _ in range(ndefault):
-        logp[draw(st.integers(0, 13))] = 0.0
+    zero_at = [draw(st.integers(0, 13)) for _ in range(ndefault)]
+    logp = draw(st.lists(_fl(-lim, lim), min_size=14, max_size=14))
+    if prange == "lower-bound":
+        # some parameters sit at their declared lower bound 1e-6 (where optimisers of the general models often end)
+        at = draw(st.lists(st.sampled_from([True, False, False]), min_size=14, max_size=14))
+        logp = [-6.0 if a else (v / 2.0) for a, v in zip(at, logp)]
+    for k in zero_at:
+        logp[k] = 0.0
     pt = {
-        "pi": draw(pi_st(npi)) if not nmono_positions else [draw(pi_st(4)) for _ in range(nmono_positions)],
+        "pi": None,
         "logp": logp,
         "wide": wide,
-        "s": draw(length_st()),
-        "t": draw(length_st()),
-        "u": draw(length_st()),
-        "het": None,
+        "prange": prange,
+        "s": s_,
+        "t": t_,
+        "u": u_,
+        "het": draw(st.lists(_fl(-lim, lim), min_size=14, max_size=14)) if het else None,
     }
-    if draw(st.integers(0, 3)) == 0:
-        pt["het"] = draw(st.lists(_fl(-lim, lim), min_size=14, max_size=14))
+    pt["pi"] = draw(pi_st(npi)) if not nmono_positions else [draw(pi_st(4)) for _ in range(nmono_positions)]
     return pt
 
 
@@ -242,7 +256,7 @@ def dinuc_cases():
 
 
 def codon_cases():
-    return st.one_of(named_cases(CODON_NAMED, 3, 0.8), named_cases(CODON_NAMED, 3, 0.8), built_cases(["TRC", "TRC", "NRC"], 3))
+    return st.one_of(named_cases(CODON_NAMED, 4, 0.8), named_cases(CODON_NAMED, 4, 0.8), built_cases(["TRC", "TRC", "NRC"], 4))
 
 
 def protein_cases():
@@ -320,6 +334,34 @@ def word_probs(rule, words, monomers_order, pi_in):
     raise HarnessError(f"unknown mprob rule {rule}")
 
 
+def ref_expm(Q, t):
+    """exp(Q t) of a rate matrix by uniformisation (a Poisson mixture of powers of the non-negative matrix
+    I + Q/mu: no cancellation) on t / 2^j followed by j squarings of a stochastic matrix.  Used instead of
+    scipy.linalg.expm as the reference because scipy loses up to 2e-3 on triangular Q with equal diagonal entries."""
+    A = np.asarray(Q, float) * float(t)
+    n = A.shape[0]
+    mu = float(np.max(-np.diag(A))) if n else 0.0
+    if not mu > 0.0:
+        return np.eye(n)
+    j = max(0, int(math.ceil(math.log2(mu / 8.0)))) if mu > 8.0 else 0
+    A = A / 2.0**j
+    mu = mu / 2.0**j
+    M = np.eye(n) + A / mu
+    M[M < 0] = 0.0  # only rounding residue on the diagonal
+    w = math.exp(-mu)
+    term = np.eye(n)
+    P = w * term
+    k = 0
+    while not (k > mu and w < 1e-20) and k < 400:
+        k += 1
+        w *= mu / k
+        term = term @ M
+        P = P + w * term
+    for _ in range(j):
+        P = P @ P
+    return P
+
+
 def _norm_inf(m):
     return float(np.abs(m).sum(axis=1).max())
 
@@ -350,6 +392,14 @@ def exec_lf(case) -> Soft:
     return s
 
 
+_REFUSED = "refused"  # set_expm evaluated the matrices eagerly and the eigen precision test raised
+
+
+def _pval(info, logv):
+    # GeneralStationary solves one rate per column from the others and rejects most vectors far from equal rates
+    return 10.0 ** (logv * 0.05) if info["kind"] == "stationary" else 10.0**logv
+
+
 def _build_lf(s, sm, info, bins, pt, expm, pi_in, words, mono):
     """fresh likelihood function with everything set as constants; None when a documented rejection occurred"""
     import cogent3
@@ -373,12 +423,12 @@ def _build_lf(s, sm, info, bins, pt, expm, pi_in, words, mono):
             return None
     names = sorted(sm.get_param_list())
     for k, nm in enumerate(names):
-        ok, _ = s.call("set_param_rule/param", lf.set_param_rule, nm, value=10.0 ** pt["logp"][k % 14], is_constant=True, allowed=allowed)
+        ok, _ = s.call("set_param_rule/param", lf.set_param_rule, nm, value=_pval(info, pt["logp"][k % 14]), is_constant=True, allowed=allowed)
         if not ok:
             return None
     if pt["het"] is not None:
         for k, nm in enumerate(names):
-            ok, _ = s.call("set_param_rule/param-edge", lf.set_param_rule, nm, edge="d", value=10.0 ** pt["het"][k % 14], is_constant=True, allowed=allowed)
+            ok, _ = s.call("set_param_rule/param-edge", lf.set_param_rule, nm, edge="d", value=_pval(info, pt["het"][k % 14]), is_constant=True, allowed=allowed)
             if not ok:
                 return None
     lengths = {"a": pt["s"], "b": pt["t"], "c": pt["s"] + pt["t"], "z": 0.0, "d": pt["u"]}
@@ -397,14 +447,18 @@ def _build_lf(s, sm, info, bins, pt, expm, pi_in, words, mono):
             ok, _ = s.call("set_param_rule/shape", lf.set_param_rule, pn, value=float(bins["shape"]), is_constant=True, allowed=allowed)
             if not ok:
                 return None
-    ok, _ = s.call(f"set_expm/{expm}", lf.set_expm, expm, allowed=allowed)
+    from numpy.linalg import LinAlgError
+
+    if expm == "checked" or (expm == "eigen" and info["kind"] != "rev"):
+        # the precision test may refuse (documented); unchecked eigen is not claimed off the reversible models
+        allowed = allowed + (ArithmeticError, LinAlgError)
+    ok, err = s.call(f"set_expm/{expm}", lf.set_expm, expm, allowed=allowed)
     if not ok:
-        return None
+        return _REFUSED if isinstance(err, (ArithmeticError, LinAlgError)) and isinstance(err, allowed or ()) else None
     return lf
 
 
 def run_point(s: Soft, sm, info, bins, pt, key):
-    import scipy.linalg
     from cogent3.maths.optimisers import ParameterOutOfBoundsError
     from numpy.linalg import LinAlgError
 
@@ -423,10 +477,10 @@ def run_point(s: Soft, sm, info, bins, pt, key):
     else:
         pi_in = pi_vector(pt["pi"], 4 if rule == "monomer" else n)
         pmode = pt["pi"]["mode"]
-    s.cls("pi:" + pmode, "params:wide" if pt["wide"] else "params:moderate", "edge-het" if pt["het"] is not None else "edge-hom")
+    s.cls("pi:" + pmode, "params:" + pt["prange"], "edge-het" if pt["het"] is not None else "edge-hom")
 
     lf = _build_lf(s, sm, info, bins, pt, "either", pi_in, words, mono)
-    if lf is None:
+    if lf is None or lf is _REFUSED:
         s.cls("point-rejected")
         return
     # the motif probabilities the function reports
@@ -502,6 +556,7 @@ def run_point(s: Soft, sm, info, bins, pt, key):
 
     # ---- Q
     Qs = {}
+    q_valid = True  # the reference exp(Qt) is only defined for a valid rate matrix
     for g, edges in groups.items():
         for b in bnames if q_per_bin else [None]:
             kw = {} if b is None else {"bin": b}
@@ -515,6 +570,8 @@ def run_point(s: Soft, sm, info, bins, pt, key):
                 return
             nq = _norm_inf(Q)
             off = Q - np.diag(np.diag(Q))
+            if not (np.abs(Q.sum(axis=1)).max() <= 1e-10 * max(1.0, nq) and off.min() >= 0.0):
+                q_valid = False
             s.check(np.abs(Q.sum(axis=1)).max() <= 1e-10 * max(1.0, nq), "Q/row-sums-zero", f"{info['label']}: max |row sum| {np.abs(Q.sum(axis=1)).max():.3e}, ||Q|| {nq:.3e}")
             s.check(off.min() >= 0.0, "Q/off-diagonal-non-negative", f"{info['label']}: min off-diagonal {off.min():.3e}")
             s.check((np.diag(Q) <= 0).all(), "Q/diagonal-non-positive", f"{info['label']}: max diagonal {np.diag(Q).max():.3e}")
@@ -550,25 +607,34 @@ def run_point(s: Soft, sm, info, bins, pt, key):
     reference = {}
     for (g, b), Q in Qs.items():
         for e in groups[g]:
-            reference[(e, b)] = scipy.linalg.expm(Q * (lengths[e] * rates[b]))
+            reference[(e, b)] = ref_expm(Q, lengths[e] * rates[b])
     scale = {(e, b): max(1.0, _norm_inf(Qs[(g, b)]) * lengths[e] * rates[b]) for (g, b) in Qs for e in groups[g]}
     eye = np.eye(n)
     results = {}
     for expm in EXPMS:
+        if expm == "eigen" and kind != "rev":
+            continue  # unchecked eigen is documented as limited to 'not too asymmetric' Q: nothing is claimed
         if expm == "either":
             lfx = lf
         else:
             lfx = _build_lf(s, sm, info, bins, pt, expm, pi_in, words, mono)
             if lfx is None:
                 continue
-        # eigen without the precision test is only claimed on reversible models
+            if lfx is _REFUSED:
+                if expm == "checked":
+                    s.cls("checked-raised")
+                    results[expm] = ({}, True)
+                continue
+        # eigen without the precision test is only claimed on reversible models; the precision-tested eigen
+        # route on non-reversible models gets the looser back-end tolerance and its own signature family
         tol = None if (expm == "eigen" and kind != "rev") else (1e-9 if (expm == "pade" or kind == "rev") else 1e-8)
         accurate = tol is not None
+        fam = "P" if (expm == "pade" or kind == "rev") else "P-eigen-on-general-model"
         raised = False
         Ps = {}
         for (e, b) in reference:
             kw = {} if b is None else {"bin": b}
-            allowed = (ArithmeticError, LinAlgError) if expm == "checked" else ()
+            allowed = (ArithmeticError, LinAlgError) if (expm == "checked" or (expm == "eigen" and kind != "rev")) else ()
             ok, P = s.call(f"get_psub_for_edge/{expm}", lfx.get_psub_for_edge, e, allowed=allowed, **kw)
             if not ok:
                 raised = raised or isinstance(P, allowed or ())
@@ -581,20 +647,20 @@ def run_point(s: Soft, sm, info, bins, pt, key):
             k = scale[(e, b)]
             what = f"{info['label']} edge {e} bin {b} length {lengths[e]!r} ||Qt|| {k:.3g}"
             if accurate:
-                s.check(np.abs(P.sum(axis=1) - 1).max() <= tol * 0.1 * k, f"P/row-sums-one/{expm}", f"{what}: max |row sum - 1| {np.abs(P.sum(axis=1) - 1).max():.3e}")
-                s.check(P.min() >= -1e-12 and P.max() <= 1 + 1e-10 * k, f"P/entries-in-unit-interval/{expm}", f"{what}: min {P.min():.3e} max-1 {P.max() - 1:.3e}")
-            else:
-                s.check(np.abs(P.sum(axis=1) - 1).max() <= 1e-6 and P.min() >= -1e-12, f"P/row-stochastic-loose/{expm}", f"{what}: max |row sum - 1| {np.abs(P.sum(axis=1) - 1).max():.3e} min {P.min():.3e}")
+                s.check(np.abs(P.sum(axis=1) - 1).max() <= tol * 0.1 * k, f"{fam}/row-sums-one/{expm}", f"{what}: max |row sum - 1| {np.abs(P.sum(axis=1) - 1).max():.3e}")
+                s.check(P.min() >= -1e-12 and P.max() <= 1 + 1e-10 * k, f"{fam}/entries-in-unit-interval/{expm}", f"{what}: min {P.min():.3e} max-1 {P.max() - 1:.3e}")
             if e == "z":
-                s.check(np.abs(P - eye).max() <= 1e-12, f"P/identity-at-zero/{expm}", f"{what}: max |P(0) - I| {np.abs(P - eye).max():.3e}")
-            if accurate:
+                s.check(np.abs(P - eye).max() <= (1e-12 if fam == "P" else 1e-9), f"{fam}/identity-at-zero/{expm}", f"{what}: max |P(0) - I| {np.abs(P - eye).max():.3e}")
+            if accurate and q_valid:
                 r = np.abs(P - reference[(e, b)]).max()
-                s.check(r <= tol * k, f"P/equals-expm-Qt/{expm}", f"{what}: max |P - scipy expm(Qt)| {r:.3e}")
+                s.check(r <= tol * k, f"{fam}/equals-expm-Qt/{expm}", f"{what}: max |P - exp(Qt)| {r:.3e}")
                 if kind in ("rev", "stationary"):
                     r = np.abs(pi @ P - pi).max()
                     s.check(r <= tol * k, f"stationary/piP/{expm}", f"{what}: max |pi P - pi| {r:.3e}")
         if expm == "checked" and raised:
             s.cls("checked-raised")
+        if Ps:
+            s.cls("backend:" + expm)
         results[expm] = (Ps, raised)
         # semigroup on the time-homogeneous edges a, b, c
         if accurate:
@@ -602,7 +668,7 @@ def run_point(s: Soft, sm, info, bins, pt, key):
                 if all((x, b) in Ps for x in "abc"):
                     r = np.abs(Ps[("a", b)] @ Ps[("b", b)] - Ps[("c", b)]).max()
                     k = scale[("c", b)]
-                    s.check(r <= tol * k, f"P/semigroup/{expm}", f"{info['label']} bin {b} s={pt['s']!r} t={pt['t']!r}: max |P(s)P(t) - P(s+t)| {r:.3e}")
+                    s.check(r <= tol * k, f"{fam}/semigroup/{expm}", f"{info['label']} bin {b} s={pt['s']!r} t={pt['t']!r}: max |P(s)P(t) - P(s+t)| {r:.3e}")
     # back-ends agree pairwise
     names = [x for x in EXPMS if x in results]
     for i, x in enumerate(names):
@@ -612,15 +678,16 @@ def run_point(s: Soft, sm, info, bins, pt, key):
             for kk in results[x][0]:
                 if kk in results[y][0]:
                     r = np.abs(results[x][0][kk] - results[y][0][kk]).max()
-                    s.check(r <= 1e-8 * scale[kk], f"P/back-ends-agree/{x}-{y}", f"{info['label']} edge {kk[0]} bin {kk[1]}: max diff {r:.3e}")
-    if "checked" in results and results["checked"][1] and "either" in results and "pade" in results:
-        # 'checked' refused the eigen decomposition, so 'either' must have fallen back to Pade
+                    s.check(r <= 1e-8 * scale[kk], f"{'P' if kind == 'rev' else 'P-eigen-on-general-model'}/back-ends-agree/{x}-{y}", f"{info['label']} edge {kk[0]} bin {kk[1]}: max diff {r:.3e}")
+    if "checked" in results and results["checked"][1] and "either" in results and "pade" in results and len(Qs) == len(bnames) and not q_per_bin:
+        # a single Q and 'checked' refused its eigen decomposition, so 'either' must have fallen back to Pade
+        # (with several Q matrices the fallback is per matrix and the refusal does not say which one failed)
         for kk in results["either"][0]:
             if kk in results["pade"][0] and kk not in results["checked"][0]:
                 r = np.abs(results["either"][0][kk] - results["pade"][0][kk]).max()
                 s.check(r <= 1e-12, "P/either-falls-back-to-pade", f"{info['label']} edge {kk[0]}: 'checked' raised but either differs from pade by {r:.3e}")
 
-    # ---- all-matrices observers agree with scipy on the uncalibrated matrices
+    # ---- all-matrices observers: exp of the uncalibrated matrices are the psubs
     if bins["n"] > 1 and bins["ordered"] == "rate":
         ok, allq = s.call("get_all_rate_matrices/uncalibrated", lf.get_all_rate_matrices, calibrated=False)
         ok2, allp = s.call("get_all_psubs", lf.get_all_psubs)
@@ -632,12 +699,13 @@ def run_point(s: Soft, sm, info, bins, pt, key):
                 b, e = k if k[0].startswith("bin") else (k[1], k[0])
                 if (e, b) not in scale:
                     continue
-                r = np.abs(scipy.linalg.expm(_arr(qk[k])) - _arr(pk[k])).max()
+                r = np.abs(ref_expm(_arr(qk[k]), 1.0) - _arr(pk[k])).max()
                 s.check(r <= 1e-9 * scale[(e, b)], "all-matrices/expm-of-uncalibrated-Q-is-psub", f"{info['label']} {k}: max diff {r:.3e}")
 
-    default_params = all(v == 0.0 for v in pt["logp"][: len(sm.get_param_list())])
+    npar = len(sm.get_param_list())
+    default_params = npar > 0 and all(v == 0.0 for v in pt["logp"][:npar])  # models without parameters: vacuous
     unequal = pi_in is None and not info["fixed_pi"] or (pi_in is not None and pmode != "equal")
-    if unequal and (not default_params or bins["n"] > 1) and pt["s"] > 0 and pt["t"] > 0 and not s.failures:
+    if unequal and (not default_params or bins["n"] > 1) and pt["s"] > 0 and pt["t"] > 0:
         s.nontrivial = True
         s.extra_nontrivial.append(key)
 
@@ -645,14 +713,19 @@ def run_point(s: Soft, sm, info, bins, pt, key):
 # ------------------------------------------------- direct exponentiator check
 @st.composite
 def expm_cases(draw):
-    n = draw(st.sampled_from([2, 3, 4, 4, 5, 6, 8, 20]))
-    kind = draw(st.sampled_from(["reversible", "reversible", "general", "general", "chain", "triangular", "nearly-triangular"]))
+    # scalars are drawn before the long lists: Hypothesis degrades draws that follow large amounts of data
+    kind = draw(st.sampled_from(["reversible", "reversible", "general", "general", "chain", "triangular", "triangular", "nearly-triangular"]))
+    if kind in ("chain", "triangular"):
+        # the eigen decomposition of these is accepted by the precision test mostly for 3-5 states
+        n = draw(st.sampled_from([3, 3, 3, 4, 4, 5, 6, 8, 20]))
+    else:
+        n = draw(st.sampled_from([2, 3, 4, 4, 5, 6, 8, 20]))
+    eps = 0.0 if draw(st.sampled_from([True, False, False, False, False])) else 10 ** draw(_fl(-13.0, -3.0))
+    t = draw(length_st())
+    speed = 10 ** draw(_fl(-1.0, 1.0))
     w = draw(st.lists(_fl(0.05, 1.0), min_size=n, max_size=n))
     m = n * n
     logr = draw(st.lists(_fl(-2.0, 2.0), min_size=m, max_size=m))
-    eps = draw(st.sampled_from([0.0, 1e-12, 1e-9, 1e-6, 1e-3]))
-    t = draw(length_st())
-    speed = 10 ** draw(_fl(-1.0, 1.0))
     return {"n": n, "kind": kind, "w": w, "logr": logr, "eps": eps, "t": t, "speed": speed}
 
 
@@ -700,22 +773,26 @@ def exec_expm(case) -> Soft:
     n = case["n"]
     kind = case["kind"]
     k = max(1.0, _norm_inf(Q) * t)
-    want = scipy.linalg.expm(Q * t)
+    want = ref_expm(Q, t)
+    if np.abs(scipy.linalg.expm(Q * t) - want).max() > 1e-9 * k:
+        s.cls("scipy-expm-inaccurate")
     s.cls("kind:" + kind, f"n:{n}", "t:zero" if t == 0 else ("t:tiny" if t < 1e-2 else "t:regular"), "norm:" + ("<1" if k <= 1 else "<10" if k < 10 else ">=10"))
     eig_ok = kind == "reversible"
 
-    def compare(name, P, accurate=True, tol=1e-9):
+    def compare(name, P, tol=1e-9):
         P = np.array(P, float)
         if P.shape != (n, n) or not np.isfinite(P).all():
             s.fail(f"{name}/finite", f"{kind} n={n} t={t!r}")
             return
-        if accurate:
-            r = np.abs(P - want).max()
-            s.check(r <= tol * k, f"{name}/equals-scipy-expm", f"{kind} n={n} t={t!r} ||Qt||={k:.3g}: max diff {r:.3e}")
-            s.check(np.abs(P.sum(axis=1) - 1).max() <= 0.1 * tol * k, f"{name}/row-sums-one", f"{kind} n={n} t={t!r}: {np.abs(P.sum(axis=1) - 1).max():.3e}")
-            s.check(P.min() >= -1e-12, f"{name}/non-negative", f"{kind} n={n} t={t!r}: min {P.min():.3e}")
+        what = f"{kind} n={n} eps={case['eps']:.3g} t={t!r} ||Qt||={k:.3g}"
+        r = np.abs(P - want).max()
+        s.check(r <= tol * k, f"{name}/equals-exp-Qt", f"{what}: max diff {r:.3e}")
+        r = np.abs(P.sum(axis=1) - 1).max()
+        s.check(r <= 0.1 * tol * k, f"{name}/row-sums-one", f"{what}: {r:.3e}")
+        s.check(P.min() >= -1e-3 * tol, f"{name}/non-negative", f"{what}: min {P.min():.3e}")
         if t == 0:
-            s.check(np.abs(P - np.eye(n)).max() <= 1e-12, f"{name}/identity-at-zero", f"{kind} n={n}: {np.abs(P - np.eye(n)).max():.3e}")
+            r = np.abs(P - np.eye(n)).max()
+            s.check(r <= (1e-12 if tol <= 1e-9 else 1e-9), f"{name}/identity-at-zero", f"{what}: {r:.3e}")
 
     ok, P = s.call("Pade", lambda: me.PadeExponentiator(Q.copy())(t))
     if ok:
@@ -729,7 +806,9 @@ def exec_expm(case) -> Soft:
     if _norm_inf(Q) * t <= 8.0:
         ok, P = s.call("Taylor", lambda: me.TaylorExponentiator(Q.copy())(t))
         if ok:
-            compare("Taylor", P)
+            # the fixed 21 term series has converged to double precision for ||Qt|| <= 2; beyond that the
+            # class stops by numpy.allclose (rtol 1e-5), so only that much is claimed
+            compare("Taylor", P, tol=1e-9 if _norm_inf(Q) * t <= 2.0 else 1e-4)
         s.cls("taylor")
     if eig_ok:
         ok, P = s.call("Fast", lambda: me.FastExponentiator(Q.copy())(t))
@@ -756,8 +835,11 @@ def exec_expm(case) -> Soft:
                     r = np.abs(np.array(P2, float) - pade).max()
                     s.check(r <= 1e-12, "either-falls-back-to-pade", f"{kind} n={n} eps={case['eps']}: 'checked' raised, either differs from Pade by {r:.3e}")
             continue
-        compare(f"setting-{setting}", P, accurate=(setting != "eigen" or eig_ok), tol=1e-9 if (setting == "pade" or eig_ok) else 1e-8)
-    s.nontrivial = n >= 3 and t > 0 and not s.failures
+        if setting == "pade" or eig_ok:
+            compare(f"setting-{setting}", P)
+        elif setting != "eigen":
+            compare(f"eigen-on-general-matrix/setting-{setting}", P, tol=1e-8)
+    s.nontrivial = n >= 3 and t > 0
     return s
 
 
@@ -818,24 +900,24 @@ def exec_discrete(case) -> Soft:
     ok, lnL = s.call("lnL", lambda: lf.lnL)
     if ok:
         s.check(np.isfinite(lnL) and lnL <= 0, "lnL/finite-non-positive", f"{name}: lnL {lnL!r}")
-    s.nontrivial = case["evals"] > 0 and len(set(case["seqs"])) > 1 and not s.failures
+    s.nontrivial = case["evals"] > 0 and len(set(case["seqs"])) > 1
     return s
 
 
 SUBS = [
-    Sub("nucleotide", exec_lf, strategy=nuc_cases(), quick=640, thorough=48_000, shards_quick=16),
-    Sub("dinucleotide", exec_lf, strategy=dinuc_cases(), quick=96, thorough=8_000, shards_quick=16),
-    Sub("codon", exec_lf, strategy=codon_cases(), quick=32, thorough=3_200, shards_quick=16, weight=30.0),
-    Sub("protein", exec_lf, strategy=protein_cases(), quick=32, thorough=3_200, shards_quick=4),
-    Sub("expm", exec_expm, strategy=expm_cases(), quick=1600, thorough=80_000, shards_quick=8),
-    Sub("discrete", exec_discrete, strategy=discrete_cases(), quick=160, thorough=8_000, shards_quick=4),
+    Sub("nucleotide", exec_lf, strategy=nuc_cases(), quick=960, thorough=48_000, shards_quick=16),
+    Sub("dinucleotide", exec_lf, strategy=dinuc_cases(), quick=128, thorough=8_000, shards_quick=16),
+    Sub("codon", exec_lf, strategy=codon_cases(), quick=48, thorough=3_200, shards_quick=8, weight=30.0),
+    Sub("protein", exec_lf, strategy=protein_cases(), quick=48, thorough=3_200, shards_quick=4),
+    Sub("expm", exec_expm, strategy=expm_cases(), quick=2400, thorough=80_000, shards_quick=12),
+    Sub("discrete", exec_discrete, strategy=discrete_cases(), quick=200, thorough=8_000, shards_quick=4),
 ]
 
 KNOWN_PREDICATES = {}
 
 META = {
-    "technique": "Hypothesis-generated models, parameter vectors, motif probabilities, rate classes and branch lengths; algebraic identities on the reported Q and P with harness-derived word distributions; differential against scipy.linalg.expm and between the exponentiation back-ends; direct differential test of the exponentiator classes on harness-built (incl. near-defective) rate matrices",
-    "level_text": "Every registered continuous-time model and generated predicate-built nucleotide, dinucleotide and codon models (each motif-probability model) are evaluated at generated parameter points; for each point the calibrated and uncalibrated rate matrices and the transition matrices for lengths 0, s, t, s+t in every rate class and under each expm setting are checked for zero row sums, non-negative off-diagonals, unit expected rate at the model's word distribution, unit mean of the rate-class multipliers, row-stochasticity, P(0)=I, P(s)P(t)=P(s+t), equality with scipy.linalg.expm(Qt), pairwise agreement of the back-ends, stationarity and detailed balance where the model class promises them.",
-    "level_note": "Trusts scipy.linalg.expm and about 60 lines of harness code deriving the word distribution. Eigen back-ends are compared with the reference only on reversible models; parameters are explored in [1e-4, 1e4] rather than the full declared [1e-6, 1e6].",
+    "technique": "Hypothesis-generated models, parameter vectors, motif probabilities, rate classes and branch lengths; algebraic identities on the reported Q and P with harness-derived word distributions; differential against a harness-written uniformisation exp(Qt) and between the exponentiation back-ends; direct differential test of the exponentiator classes on harness-built (incl. near-defective) rate matrices",
+    "level_text": "Every registered continuous-time model and generated predicate-built nucleotide, dinucleotide and codon models (each motif-probability model) are evaluated at generated parameter points; for each point the calibrated and uncalibrated rate matrices and the transition matrices for lengths 0, s, t, s+t in every rate class and under each expm setting are checked for zero row sums, non-negative off-diagonals, unit expected rate at the model's word distribution, unit mean of the rate-class multipliers, row-stochasticity, P(0)=I, P(s)P(t)=P(s+t), equality with the harness's exp(Qt), pairwise agreement of the back-ends, stationarity and detailed balance where the model class promises them.",
+    "level_note": "Trusts about 90 lines of harness code (uniformisation exp(Qt), word distributions). The unchecked eigen back-end is compared with the reference only on reversible models; parameters are explored in [1e-4, 1e4] plus the lower bound 1e-6, not up to the declared upper bound 1e6.",
     "design_ref": "DESIGN.md section 1, C05",
 }
